@@ -22,17 +22,23 @@ type c04Cand struct {
 }
 
 type c04G struct {
-	iface bool
-	rng   *rand.Rand // nil: exhaustive parameter lists
-	arrs  []string
-	strs  []string
-	sets  []string
-	tsets []string
-	count map[byte]int
+	iface  bool
+	ptr    bool       // family P: generic streams of pointer elements (streams only)
+	slists []string   // caller-owned operand lists of streams
+	alists []string   // caller-owned operand lists of slices
+	spread bool       // setup dedicated to spread calls: only those (and a few companions) are enumerated
+	rng    *rand.Rand // nil: exhaustive parameter lists
+	arrs   []string
+	strs   []string
+	sets   []string
+	tsets  []string
+	count  map[byte]int
 }
 
 func (g *c04G) clone() *c04G {
-	n := &c04G{iface: g.iface, rng: g.rng, count: map[byte]int{}}
+	n := &c04G{iface: g.iface, ptr: g.ptr, spread: g.spread, rng: g.rng, count: map[byte]int{}}
+	n.slists = append([]string{}, g.slists...)
+	n.alists = append([]string{}, g.alists...)
 	n.arrs = append([]string{}, g.arrs...)
 	n.strs = append([]string{}, g.strs...)
 	n.sets = append([]string{}, g.sets...)
@@ -59,6 +65,12 @@ func (g *c04G) take(c c04Cand) {
 		g.sets = append(g.sets, c.name)
 	case 't':
 		g.tsets = append(g.tsets, c.name)
+	case 'l':
+		if strings.Contains(c.text, "=alist ") {
+			g.alists = append(g.alists, c.name)
+		} else {
+			g.slists = append(g.slists, c.name)
+		}
 	}
 }
 
@@ -68,6 +80,10 @@ func (g *c04G) absorb(prefix string) {
 		t = strings.TrimSpace(t)
 		if i := strings.Index(t, "="); i > 0 && !strings.Contains(t[:i], " ") {
 			name := t[:i]
+			if name[0] == 'l' {
+				g.take(c04Cand{kind: 'l', name: name, text: t})
+				continue
+			}
 			g.take(c04Cand{kind: name[0], name: name})
 		}
 	}
@@ -92,7 +108,10 @@ func (g *c04G) val() int {
 	if g.rng == nil {
 		return 2
 	}
-	return g.rng.Intn(7) - 1 // -1 (nil in the interface{} family) .. 5
+	if g.iface && g.rng.Intn(5) == 0 {
+		return []int{-2, -2, 50, 51}[g.rng.Intn(4)] // typed nil pointer / non-nil pointers inside the interface{}
+	}
+	return g.rng.Intn(7) - 1 // -1 (nil in the interface{} / pointer families) .. 5
 }
 
 func (g *c04G) indices() []int {
@@ -125,6 +144,51 @@ func (g *c04G) candidates(streams, sets, tsets bool) []c04Cand {
 	itoa := strconv.Itoa
 	strArgs := append(append([]string{}, g.strs...), "nil")
 	if streams {
+		// spread calls: the operand list is a caller-owned slice, observed afterwards and reusable
+		for _, r := range g.strs {
+			for _, a := range g.arrs {
+				mk("appendv", 's', r, a)
+				mk("rmitemv", 's', r, a)
+			}
+			for _, l := range g.slists {
+				mk("extendv", 's', r, l)
+			}
+			for _, l := range g.alists {
+				mk("concatv", 's', r, l)
+			}
+		}
+		if g.rng != nil && len(g.strs) > 0 {
+			ms := make([]string, 2+g.rng.Intn(3))
+			for i := range ms {
+				if g.rng.Intn(3) == 0 {
+					ms[i] = "nil"
+				} else {
+					ms[i] = g.pick(g.strs)
+				}
+			}
+			mk("slist", 'l', strings.Join(ms, ","))
+			ma := make([]string, 2+g.rng.Intn(3))
+			for i := range ma {
+				if g.rng.Intn(3) == 0 {
+					ma[i] = "nil"
+				} else {
+					ma[i] = g.pick(g.arrs)
+				}
+			}
+			mk("alist", 'l', strings.Join(ma, ","))
+		}
+	}
+	if streams && g.spread {
+		for _, a := range g.arrs {
+			plain("wr", false, a, "0", "8")
+		}
+		for _, r := range g.strs {
+			mk("extend", 's', r, "nil", g.strs[len(g.strs)-1])
+			mk("remove", 's', r, "0")
+			mk("notnil", 's', r)
+		}
+	}
+	if streams && !g.spread {
 		for _, a := range g.arrs {
 			if g.rng == nil {
 				// every index (out-of-range ones are refused): a result that wrongly aliases the middle or the
@@ -204,6 +268,10 @@ func (g *c04G) candidates(streams, sets, tsets bool) []c04Cand {
 			mk("setfrommap", 'm', itoa(g.val())+":"+itoa(g.val())+","+itoa(g.val())+":"+itoa(g.val()))
 		} else if len(g.arrs) > 0 {
 			mk("setfromarr", 'm', g.arrs[0])
+			mk("setfromv", 'm', g.arrs[0])
+		}
+		if g.rng != nil && len(g.arrs) > 0 {
+			mk("setfromv", 'm', g.pick(g.arrs))
 		}
 		for _, r := range g.sets {
 			for _, f := range g.fns(3, 0) {
@@ -225,6 +293,11 @@ func (g *c04G) candidates(streams, sets, tsets bool) []c04Cand {
 				mk("rmvals", 'm', r, g.valLists()[0])
 			}
 			mk("sclone", 'm', r)
+			for _, a := range g.arrs {
+				mk("addv", 'm', r, a)
+				mk("rmkeysv", 'm', r, a)
+				mk("rmvalsv", 'm', r, a)
+			}
 			for _, x := range setArgs {
 				mk("union", 'm', r, x)
 				mk("sinter", 'm', r, x)
@@ -261,10 +334,15 @@ func (g *c04G) candidates(streams, sets, tsets bool) []c04Cand {
 			}
 			if len(g.arrs) > 0 {
 				mk("tfromarr", 't', g.pick(g.arrs))
+				mk("tfromv", 't', g.pick(g.arrs))
 			}
 		}
 		for _, r := range g.tsets {
 			mk("sclone", 't', r)
+			for _, a := range g.arrs {
+				mk("addv", 'u', r, a)
+				mk("rmkeysv", 'u', r, a)
+			}
 			for _, x := range tArgs {
 				mk("union", 't', r, x)
 				mk("sinter", 't', r, x)
@@ -325,12 +403,15 @@ type c04Setup struct {
 	prefix               string
 	streams, sets, tsets bool
 	ifaceOnly, genOnly   bool
+	spread               bool // dedicated to spread calls (caller-owned operand lists)
 }
 
 var c04Setups = []c04Setup{
 	{name: "spare", prefix: "a0=arr 3 1,2,1,9,9 ; s0=from a0 ; a1=arr 2 2,3 ; s1=fromv a1", streams: true},
 	{name: "overlap", prefix: "a0=arr 4 3,1,2,1 ; s0=from a0 ; a1=sub a0 1 3 ; s1=from a1", streams: true},
 	{name: "nil-empty", prefix: "a0=arr 3 -1,2,-1,5 ; s0=from a0 ; a1=arr 0 - ; s1=from a1", streams: true},
+	{name: "typed-nil", prefix: "a0=arr 4 -2,2,-1,50,5 ; s0=from a0 ; a1=arr 2 -2,50 ; s1=from a1", streams: true, ifaceOnly: true},
+	{name: "spread", prefix: "a0=arr 3 1,2,1,9,9 ; s0=from a0 ; a1=arr 2 2,3 ; s1=fromv a1 ; a2=arr 1 5 ; s2=from a2 ; l0=slist nil,s1,s2 ; l1=alist nil,a1,a2", streams: true, spread: true},
 	{name: "sets", prefix: "a0=arr 2 3,4,4 ; m0=setfrom 1,2 ; set m0 1 5 ; m1=setfrommap 2:7,3:8", sets: true},
 	{name: "sets-empty", prefix: "a0=arr 0 - ; m0=setfrom - ; m1=setfrom 2,2,3", sets: true},
 	{name: "ssets", prefix: "a0=arr 3 1,2,1,9 ; s0=from a0 ; a1=arr 2 2,3 ; s1=from a1 ; t0=tfrommap 1:s0,2:s1 ; t1=tfrommap 1:s1,3:s0", tsets: true},
@@ -345,14 +426,15 @@ func c04Gen(tier string, rng *rand.Rand, emit func(string)) map[string]interface
 	}
 	opCount := map[string]int{}
 	exh1, exh2, exh3 := 0, 0, 0
-	for _, fam := range []string{"G", "I"} {
+	for _, fam := range []string{"G", "I", "P"} {
 		iface := fam == "I"
+		ptr := fam == "P"
 		for _, su := range c04Setups {
-			if su.ifaceOnly && !iface || su.genOnly && iface {
+			if su.ifaceOnly && !iface || su.genOnly && iface || ptr && (!su.streams || su.name == "overlap") {
 				continue
 			}
 			head := fam + ": " + su.prefix
-			base := &c04G{iface: iface, count: map[byte]int{}}
+			base := &c04G{iface: iface, ptr: ptr, spread: su.spread, count: map[byte]int{}}
 			base.absorb(su.prefix)
 			emit(head)
 			// all programs of length 1 and 2
@@ -427,12 +509,16 @@ func c04Gen(tier string, rng *rand.Rand, emit func(string)) map[string]interface
 	}
 	// random programs mixing all three collection kinds
 	for i := 0; i < nRandom; i++ {
-		iface := rng.Intn(2) == 1
+		famIdx := rng.Intn(5) // G, I twice as often as P
+		iface := famIdx == 1 || famIdx == 3
+		ptr := famIdx == 4
 		fam := "G"
 		if iface {
 			fam = "I"
+		} else if ptr {
+			fam = "P"
 		}
-		g := &c04G{iface: iface, rng: rng, count: map[byte]int{}}
+		g := &c04G{iface: iface, ptr: ptr, rng: rng, count: map[byte]int{}}
 		var toks []string
 		// one or two caller-made arrays, spare capacity likely
 		for a := 0; a < 1+rng.Intn(2); a++ {
@@ -470,7 +556,7 @@ func c04Gen(tier string, rng *rand.Rand, emit func(string)) map[string]interface
 				}
 				gg.strs, gg.sets, gg.tsets = trim(g.strs), trim(g.sets), trim(g.tsets)
 			}
-			cs := gg.candidates(true, true, true)
+			cs := gg.candidates(true, !ptr, !ptr)
 			// pick the operation kind uniformly, then one of its operand combinations
 			var kindList []string
 			by := map[string][]c04Cand{}
